@@ -1,5 +1,12 @@
 #!/bin/sh
-# builds the analysis tools offline; filled in as engines are added
+# Builds the analysis tools offline into /verif/.cache/tools (git-ignored, re-creatable).
 set -e
 cd "$(dirname "$0")"
-exit 0
+export CARGO_NET_OFFLINE=true
+mkdir -p .cache/tools
+( cd engines/mirfacts && CARGO_TARGET_DIR="$PWD/../../.cache/tools/mirfacts" cargo build --release --offline )
+[ -x .cache/tools/mirfacts/release/mirfacts ]
+if [ -d engines/xpand/synq ]; then
+  ( cd engines/xpand/synq && CARGO_TARGET_DIR="$PWD/../../../.cache/tools/synq" cargo build --release --offline )
+fi
+echo "setup ok"
